@@ -1137,7 +1137,6 @@ theorem setReq_pixels (a : Args) : ∀ p ∈ (setReq a).pixels, p ∈ addressed 
   generalize ((a.getD "slice" "").splitOn ":").map String.toNat? = l
   split
   · rename_i lo hi st
-    simp only []
     by_cases h0 : (st == 0) = true
     · rw [if_pos h0]; intro p hp; cases hp
     · rw [if_neg h0, if_neg h0]
@@ -1145,6 +1144,15 @@ theorem setReq_pixels (a : Args) : ∀ p ∈ (setReq a).pixels, p ∈ addressed 
       · intro p hp; cases hp
       · intro p hp; exact hp
   · intro p hp; cases hp
+
+theorem denseFold_not_mem {V W : Type} (g : V → W → V) (L : List (Nat × W)) (p : Nat) (x : V)
+    (h : ∀ qw ∈ L, qw.1 ≠ p) : denseFold g L p x = x := by
+  induction L generalizing x with
+  | nil => rfl
+  | cons qw L ih =>
+    simp only [denseFold, List.foldl_cons]
+    rw [if_neg (h qw List.mem_cons_self)]
+    exact ih x fun qw' h' => h qw' (List.mem_cons_of_mem _ h')
 
 theorem dNew_not_mem (d : DenseMap) (op : String) {pix : List Nat} (vals : Option (List Val))
     (single : Bool) {p : Nat} (hp : p ∉ pix) : dNew d op pix vals single p = d.f p := by
@@ -1304,6 +1312,150 @@ theorem blankAt_step {D : DenseWorld} {n : String} {p : Nat} (h : BlankAt D n p)
   · exact blankAt_withMap h fun _ _ _ _ _ => h
   · exact blankAt_withMap h fun _ _ _ _ _ => h
   · exact h
+
+/-! ### the value semantics of the dense update, spelled out -/
+
+/-- `h` applied `n` times -/
+def iter {V : Type} (h : V → V) : Nat → V → V
+  | 0, x => x
+  | n + 1, x => iter h n (h x)
+
+theorem iter_id {V : Type} (n : Nat) (x : V) : iter id n x = x := by
+  induction n with
+  | zero => rfl
+  | succ n ih => exact ih
+
+theorem denseFold_count {V : Type} (h : V → V) (pix : List Nat) (p : Nat) (x : V) :
+    denseFold (fun x (_ : Unit) => h x) (pix.map fun q => (q, ())) p x = iter h (pix.count p) x := by
+  induction pix generalizing x with
+  | nil => rfl
+  | cons q pix ih =>
+    simp only [List.map_cons, denseFold, List.foldl_cons]
+    by_cases hq : q = p
+    · subst hq
+      rw [if_pos rfl, List.count_cons_self]
+      exact ih (h x)
+    · rw [if_neg hq, List.count_cons_of_ne hq]
+      exact ih x
+
+/-- `replace` (or any operation without pre-pass) with ONE value `v` broadcast over `pix`, and
+    accumulating operations with one value: the cell operation `· ⊕ v` applied once per
+    occurrence of the pixel, after the reset of `add` over a non-zero sentinel (once per
+    occurrence too; it is idempotent) -/
+theorem dNew_single (d : DenseMap) (op : String) (pix : List Nat) (v : Val) (p : Nat) :
+    dNew d op pix (some [v]) true p
+      = iter (fun x => (cellOp d.hdr op).2 x v) (pix.count p)
+          (iter ((cellOp d.hdr op).1.getD id) (pix.count p) (d.f p)) := by
+  unfold dNew
+  have hpv : updPv d.hdr pix (some [v]) true = pix.map fun q => (q, v) := by simp [updPv]
+  rw [hpv]
+  have e2 : ∀ (g : Val → Val) (y : Val),
+      denseFold (stageOp g (cellOp d.hdr op).2)
+          ((pix.map fun q => (q, v)).map fun pw => (pw.1, some pw.2)) p y
+        = iter (fun x => (cellOp d.hdr op).2 x v) (pix.count p) y := by
+    intro g y
+    rw [← denseFold_count, List.map_map]
+    exact denseFold_map_congr (stageOp g (cellOp d.hdr op).2)
+      (fun x (_ : Unit) => (cellOp d.hdr op).2 x v) pix
+      ((fun pw => (pw.1, some pw.2)) ∘ fun q => (q, v)) (fun q => (q, ()))
+      (fun _ _ => rfl) (fun _ _ _ => rfl) p y
+  cases hpre : (cellOp d.hdr op).1 with
+  | none =>
+    simp only [Option.isSome_none, stageList, Bool.false_eq_true, if_false, List.nil_append,
+      Option.getD_none]
+    rw [e2, iter_id]
+  | some g =>
+    simp only [Option.isSome_some, stageList, if_true, Option.getD_some]
+    rw [denseFold_append, e2]
+    congr 1
+    rw [← denseFold_count, List.map_map]
+    exact denseFold_map_congr (stageOp g (cellOp d.hdr op).2) (fun x (_ : Unit) => g x) pix
+      ((fun pw => (pw.1, (none : Option Val))) ∘ fun q => (q, v)) (fun q => (q, ()))
+      (fun _ _ => rfl) (fun _ _ _ => rfl) p (d.f p)
+
+/-- `None`: the addressed pixels become blank -/
+theorem dNew_none (d : DenseMap) (pix : List Nat) (single : Bool) (p : Nat) :
+    dNew d "replace" pix none single p = if p ∈ pix then d.blank else d.f p := by
+  unfold dNew
+  show denseFold (stageOp id (fun _ (w : Val) => w))
+      ((pix.map fun q => (q, clearValue d.hdr)).map fun pw => (pw.1, some pw.2)) p (d.f p) = _
+  rw [clear_fold]
+  rfl
+
+/-- `replace` with one value per pixel and no repeated pixel: pixel `pix[i]` gets `vals[i]` -/
+theorem dNew_replace_vals (d : DenseMap) (pix : List Nat) (vals : List Val) (hnd : pix.Nodup)
+    (hlen : vals.length = pix.length) (h1 : vals.length ≠ 1) (i : Nat) (hi : i < pix.length) :
+    dNew d "replace" pix (some vals) false (pix[i]) = vals[i]'(hlen ▸ hi) := by
+  unfold dNew
+  have hpv : updPv d.hdr pix (some vals) false = pix.zip vals := by
+    unfold updPv
+    have : (vals.length == 1) = false := by simpa using h1
+    simp [this]
+  rw [hpv]
+  show denseFold (stageOp id (fun _ (w : Val) => w))
+      ((pix.zip vals).map fun pw => (pw.1, some pw.2)) pix[i] (d.f pix[i]) = _
+  have key : ∀ (pix : List Nat) (vals : List Val) (x : Val), pix.Nodup →
+      ∀ (hlen : vals.length = pix.length) (i : Nat) (hi : i < pix.length),
+      denseFold (stageOp id (fun _ (w : Val) => w))
+        ((pix.zip vals).map fun pw => (pw.1, some pw.2)) pix[i] x = vals[i]'(hlen ▸ hi) := by
+    intro pix
+    induction pix with
+    | nil => intro _ _ _ _ i hi; cases hi
+    | cons q pix ih =>
+      intro vals x hnd hlen i hi
+      cases vals with
+      | nil => cases hlen
+      | cons v vals =>
+        simp only [List.zip_cons_cons, List.map_cons, denseFold, List.foldl_cons]
+        have hq : q ∉ pix := (List.nodup_cons.1 hnd).1
+        cases i with
+        | zero =>
+          simp only [List.getElem_cons_zero, if_true]
+          have := denseFold_not_mem (stageOp id (fun _ (w : Val) => w))
+            ((pix.zip vals).map fun pw => (pw.1, some pw.2)) q (stageOp id (fun _ w => w) x (some v))
+            (by
+              intro qw hqw he
+              obtain ⟨pw, hpw, rfl⟩ := List.mem_map.1 hqw
+              exact hq (he ▸ (List.of_mem_zip (a := pw.1) (b := pw.2) hpw).1))
+          simp only [denseFold] at this
+          rw [this]; rfl
+        | succ i =>
+          have hi' : i < pix.length := by simpa using hi
+          have hne : q ≠ pix[i] := fun he => hq (he ▸ List.getElem_mem hi')
+          simp only [List.getElem_cons_succ, hne, if_false]
+          have := ih vals x (List.nodup_cons.1 hnd).2 (by simpa using hlen) i hi'
+          simp only [denseFold] at this
+          exact this
+  exact key pix vals _ hnd hlen i hi
+
+/-- `replace` with a repeated pixel is refused (ValueError) on a non-empty, well-typed call -/
+theorem dUpdate_replace_dups (d : DenseMap) (pix : List Nat) (vals : Option (List Val)) (single : Bool)
+    (hd : pix.eraseDups.length < pix.length) :
+    ∃ e, dUpdate d "replace" pix vals single none = .error e := by
+  unfold dUpdate
+  simp only []
+  split
+  · exact ⟨_, rfl⟩
+  · have hne : pix.isEmpty = false := by
+      cases pix with
+      | nil => simp at hd
+      | cons _ _ => rfl
+    rw [if_neg (by rw [hne]; exact Bool.false_ne_true)]
+    split
+    · exact ⟨_, rfl⟩
+    · rw [if_pos (by simp [hd])]
+      exact ⟨_, rfl⟩
+
+/-! ### a view reads its parent's field -/
+
+theorem materializeView_abs {p v : MapObj} {pn : String} {i : Nat} {s : Val} {c : Option Nat}
+    (hp : p.WF) (h : materializeView p pn i s c = .ok v) (q : Nat) (hq : q < p.npix) :
+    v.abs q = recField i (p.abs q) := by
+  obtain ⟨dt, s', _, h1, h2, _, _, h5, _, _⟩ := materializeView_ok h
+  have hc : v.c = p.c := by unfold MapObj.c; rw [h1, h2]
+  show abs v.c v.vc v.st q = _
+  rw [hc, h5]
+  exact abs_mapCells p.c p.vc v.vc p.st (recField i) hp.2 q hq
 
 end ApiDense
 end HS
